@@ -19,10 +19,11 @@ RULE = ("(enumerated) every string of length <= 5 (thorough: <= 6) over the 12-s
         "(identifier, version) pairs for injectivity of output directories, ':name' deps resolved through a real COND "
         "file in a generated package, `cond where -f` samples. Non-trivial = the string is accepted by some recogniser "
         "or becomes accepted after deleting one character (it lies on the grammar boundary); counted per string, all "
-        "enumerated strings are distinct by construction.")
+        "enumerated strings are distinct by construction."
+        " A quarter of the generated cases use LONG names (20-234 characters, the file system allows 239 for <name>.task.<10 digits>) that share a long prefix and differ in a short suffix.")
 ASSUMPTIONS = ["the documented grammar is: name = [A-Za-z0-9_-]+ ; identifier = optional //, segments joined by single '/', ':' name"]
 ESSENTIAL = ["trailing_newline", "leading_space", "double_slash_inside", "empty_segment", "no_prefix", "root_package",
-             "generated_valid", "generated_mutated", "injectivity_set", "relative_dep_in_cond_file", "cli_where", "charclass_sweep"]
+             "generated_valid", "generated_mutated", "injectivity_set", "relative_dep_in_cond_file", "cli_where", "charclass_sweep", "long_names_sharing_a_prefix"]
 EXHAUSTIVE = {"quick": "all strings of length <= 5 over the 12-symbol alphabet (271,453 strings x 4 entry points)",
               "thorough": "all strings of length <= 6 over the 12-symbol alphabet (3,257,437 strings x 4 entry points)"}
 TECHNIQUE = "exhaustive small-scope enumeration of strings against a hand-written recogniser + Hypothesis-generated long identifiers, round-trip and injectivity checks"
@@ -206,11 +207,26 @@ _name = st.text(alphabet=_NAME_CH, min_size=1, max_size=12)
 _EDIT_CH = list("aZ0-_/: \n\t.") + ["é", "ß", "а", "\U0001f600", "\x00", "\\", "'", '"', "*"]
 
 
+_LENGTHS = [20, 40, 64, 100, 120, 127, 128, 130, 138, 139, 143, 144, 150, 160, 180, 200, 220, 230]
+
+
+@st.composite
+def _long_names(draw, n):
+    """n distinct LONG names that share a long prefix (generated sweep names that differ in a trailing seed or index).
+    The documentation gives names no length limit; the file system's limit for <name>.task.<10 digits> is 239."""
+    L = draw(st.sampled_from(_LENGTHS))
+    base = draw(_name)
+    prefix = (base * (L // len(base) + 1))[:L]
+    sufs = draw(st.lists(st.text(alphabet=_NAME_CH, min_size=1, max_size=4), min_size=n, max_size=n, unique=True))
+    return [prefix + s for s in sufs]
+
+
 @st.composite
 def _gen_case(draw, tier):
     kind = draw(st.sampled_from(["mutated", "mutated", "valid", "inject", "cond", "cli"]))
+    long_mode = draw(st.sampled_from([False, False, False, True]))
     segs = draw(st.lists(_name, min_size=0, max_size=5))
-    name = draw(_name)
+    name = draw(_long_names(1))[0] if long_mode else draw(_name)
     s = "//" + "/".join(segs) + ":" + name
     case = {"kind": kind, "s": s}
     if kind == "mutated":
@@ -231,7 +247,7 @@ def _gen_case(draw, tier):
     elif kind == "inject":
         n = draw(st.integers(2, 6))
         pool_segs = draw(st.lists(_name, min_size=1, max_size=3))
-        pool_names = draw(st.lists(_name, min_size=1, max_size=3))
+        pool_names = draw(_long_names(3)) if long_mode else draw(st.lists(_name, min_size=1, max_size=3))
         pairs = []
         for _ in range(n):
             sg = draw(st.lists(st.sampled_from(pool_segs), max_size=3))
@@ -241,7 +257,7 @@ def _gen_case(draw, tier):
         case["pairs"] = pairs
     elif kind in ("cond", "cli"):
         case["pkg"] = "/".join(draw(st.lists(_name, min_size=0, max_size=3)))
-        case["names"] = draw(st.lists(_name, min_size=2, max_size=3, unique=True))
+        case["names"] = draw(_long_names(3)) if long_mode else draw(st.lists(_name, min_size=2, max_size=3, unique=True))
     return case
 
 
@@ -286,6 +302,8 @@ def run_case(case):
                 elif a in b.parents or b in a.parents:
                     v.append(("output_dir_nested", "output directories of %r and %r are nested: %s / %s" % (keys[i], keys[j], a, b)))
         labels.append("injectivity_set")
+        if any(len(s) > 100 for s, _ in case["pairs"]):
+            labels.append("long_names_sharing_a_prefix")
         return Outcome(v, labels, len(dirs) >= 2, {"pairs": case["pairs"]})
     # COND-level: ':name' resolves against the directory of the COND file that lists it
     root = projgen.new_scratch("c20")
